@@ -67,7 +67,9 @@ func FindGrouping(n Node, name string, seen map[string]bool) *Grouping {
 				// If the prefix matches the import statement,
 				// then search for the trimmed name in that module.
 				pname := strings.TrimPrefix(name, i.Prefix.Name+":")
-				if pname == name {
+				if pname == name || i.Module == nil {
+					// Not this import, or the imported module
+					// could not be loaded.
 					continue
 				}
 				if g := FindGrouping(i.Module, pname, seen); g != nil {
@@ -78,6 +80,10 @@ func FindGrouping(n Node, name string, seen map[string]bool) *Grouping {
 		v = e.FieldByName("Include")
 		if v.IsValid() {
 			for _, i := range v.Interface().([]*Include) {
+				if i.Module == nil {
+					// The submodule could not be loaded.
+					continue
+				}
 				if seen[i.Module.Name] {
 					// Prevent infinite loops in the case that we have already looked at
 					// this submodule. This occurs where submodules have include statements
